@@ -84,7 +84,7 @@ def to_json(o):
     if type(o) is str:
         return {"t": "str", "v": o, "repr": repr(o)}
     if isinstance(o, bytes):
-        return {"t": "bytes", **ref_of(type(o)), "repr": repr(o)}
+        return {"t": "bytes", **ref_of(type(o)), "bs": list(o), "repr": repr(o)}
     if isinstance(o, QName):
         if any(0xD800 <= ord(c) <= 0xDFFF for c in o.text):
             # JSON files cannot hold a lone surrogate: give the code points (never sent to the Lean driver)
@@ -371,6 +371,8 @@ def compare_code(mo, io, a):
     STATS["declined"] += mo["ok"]["outcome"] == "unmodelled"
     if not h.get("wf"):
         return False
+    if not h.get("reprs"):
+        return False  # the repr() of some str/bytes leaf is not what the model's pyReprStr/pyReprBytes computes
     if all(h.get(k) for k in ("wf", "dom", "renders")):
         STATS["claimed"] += 1
         STATS["claimed_equal"] += io["ok"]["outcome"] == "equal"
@@ -467,6 +469,10 @@ QNAME_TEXTS = [
     "a\x08b", "a\x0cb", "a\x1fb", "a\x00b", "a\x7fb", "a\u2028b", "a\x85b", "\U0001F600", "a\tb", "\\u0041", '"', "\\",
 ]
 STRS = ["", "a", "en", "a'b", 'a"b', "a'b\"c", "a\nb", "€", "\\", "a\\b", "\x7f", "日本", "\t", "{urn:x}a",
+        # every escape class of repr(str): C0 controls, DEL, C1, NBSP / soft hyphen (Latin-1 unprintable), unassigned BMP,
+        # line/paragraph separators, BOM, private use, astral printable, astral unprintable, backslash next to quotes
+        "\x00\x01\x1f", "\r\n", "\x80\x9f", "\xa0\xad", "\u0378", "\u2028\u2029", "\ufeff", "\ue000", "\U0001f600",
+        "\U000e0001", "\U0010ffff", "\\'", '\\"', "'\\", "x\x7fy\xe9z",
         "1", "0", "None", "True", "1.5", "()", "[]", "b'ab'"]  # the last row: str() look-alikes of other defaults
 FLOATS = [0.0, -0.0, 1.0, 1.5, 0.1, 1e22, 1e-7, -2.5e-300, float("inf"), float("-inf"), float("nan"), 3.0]
 DECS = ["0", "1", "1.50", "-0.0", "0.1", "1E+3", "3", "NaN", "Infinity", "-Infinity", "-7.25"]
@@ -1012,6 +1018,137 @@ def impl_dqcp(a):
     return ok([ord(c) for c in v])
 
 
+STR_ALPHA = list("ab'\"\\\t\n\r\x00\x1f \x7f\x80\xa0\xad\xe9\u0378\u20ac\u2028\ue000\ufeff\U0001f600\U000e0001\U0010ffff")
+
+
+def gen_strrepr(rng, tier):
+    for i in list(range(0x180)) + [0x378, 0x2028, 0xD7FF, 0xE000, 0xFEFF, 0xFFFF, 0x10000, 0x1F600, 0xE0001, 0x10FFFF]:
+        yield {"s": chr(i)}
+        yield {"s": "'" + chr(i)}
+        yield {"s": "'\"" + chr(i) + "\\"}
+    for t in STRS + QNAME_TEXTS:
+        yield {"s": t}
+    for _ in range(1500 if tier == "quick" else 30000):
+        if rng.random() < 0.15:
+            cp = rng.randrange(0x110000)
+            while 0xD800 <= cp <= 0xDFFF:
+                cp = rng.randrange(0x110000)
+            yield {"s": chr(cp) + rng.choice(["", "'", '"'])}
+        else:
+            yield {"s": "".join(rng.choice(STR_ALPHA) for _ in range(rng.randint(0, 8)))}
+
+
+def impl_strrepr(a):
+    r = repr(a["s"])
+    try:
+        back = ast.literal_eval(r)
+    except Exception:  # noqa: BLE001
+        back = None
+    return ok({"repr": r, "back": back})
+
+
+def classify_strrepr(a, o):
+    s = a["s"]
+    q = o["ok"]["repr"][0]
+    kinds = set()
+    for c in s:
+        n = ord(c)
+        kinds.add("ascii" if 32 <= n < 127 else "c0/del" if n < 32 or n == 127 else "latin1" if n < 256 else "bmp" if n < 65536 else "astral")
+    esc = "esc" if "\\" in o["ok"]["repr"] else "raw"
+    return f"quote={q} {esc} " + "+".join(sorted(kinds) or ["empty"])
+
+
+def gen_bytesrepr(rng, tier):
+    for i in range(256):
+        yield {"bs": [i]}
+        yield {"bs": [39, i]}
+        yield {"bs": [39, 34, i, 92]}
+    for _ in range(800 if tier == "quick" else 20000):
+        yield {"bs": [rng.choice([39, 34, 92, 9, 10, 13, 0, 31, 32, 97, 126, 127, 128, 255]) if rng.random() < 0.7 else rng.randrange(256)
+                      for _ in range(rng.randint(0, 8))]}
+
+
+def impl_bytesrepr(a):
+    r = repr(bytes(a["bs"]))
+    return ok({"repr": r, "back": list(ast.literal_eval(r))})
+
+
+def classify_bytesrepr(a, o):
+    r = o["ok"]["repr"]
+    return f"quote={r[1]} " + ("esc" if "\\" in r else "raw")
+
+
+def gen_strlit(rng, tier):
+    """whole literals, well-formed or not: what does the parser make of them?"""
+    hand = ["''", '""', "'a'", '"a"', "'a\"'", "\"a'\"", "'a", "a'", "'a\"", "'\\x41'", "'\\x4'", "'\\u00e9'", "'\\U0001f600'", "'\\U00110000'",
+            "'\\ud800'", "'\\101'", "'\\N{DASH}'", "'\\q'", "'a\nb'", "'\\\n'", "'" * 3 + "a" + "'" * 3, "'a''b'", "b'a'", "", "'", "'\\'", "'\\\\'"]
+    for t in hand:
+        yield {"t": t}
+    alpha = list("ab'\"\\xuU0149afN{}\n é")
+    for _ in range(1500 if tier == "quick" else 30000):
+        q = rng.choice("'\"")
+        body = "".join(rng.choice(alpha) for _ in range(rng.randint(0, 7)))
+        r = rng.random()
+        yield {"t": (q + body + q) if r < 0.85 else (q + body) if r < 0.93 else body}
+
+
+def _parse_literal(t, want):
+    try:
+        with warnings.catch_warnings():
+            warnings.simplefilter("ignore")
+            node = ast.parse(t, mode="eval").body
+    except (SyntaxError, ValueError):
+        return None
+    # one literal token only: no implicit concatenation, no expression, no blanks around it
+    if not isinstance(node, ast.Constant) or not isinstance(node.value, want):
+        return None
+    try:
+        import io
+        import tokenize
+
+        toks = [tk for tk in tokenize.generate_tokens(io.StringIO(t).readline)
+                if tk.type not in (tokenize.NEWLINE, tokenize.ENDMARKER, tokenize.NL)]
+    except (tokenize.TokenError, SyntaxError, IndentationError):
+        return None
+    if len(toks) != 1 or toks[0].string != t:
+        return None
+    return node.value
+
+
+def impl_strlit(a):
+    t = a["t"]
+    v = _parse_literal(t, str)
+    if v is None or t[:1] not in ("'", '"') or t[:3] in ("'''", '"""'):
+        return err("unmodelled")
+    return ok(v)
+
+
+def gen_byteslit(rng, tier):
+    hand = ["b''", 'b""', "b'a'", "b'\\x41'", "b'\\x4'", "b'\\u0041'", "b'\\N'", "b'\\101'", "b'é'", "b'a", "'a'", "b'\\''", "b\"'\"", "b'\\q'", "B'a'"]
+    for t in hand:
+        yield {"t": t}
+    alpha = list("ab'\"\\xu0149afN\n é")
+    for _ in range(1000 if tier == "quick" else 20000):
+        q = rng.choice("'\"")
+        body = "".join(rng.choice(alpha) for _ in range(rng.randint(0, 7)))
+        yield {"t": "b" + q + body + (q if rng.random() < 0.9 else "")}
+
+
+def impl_byteslit(a):
+    t = a["t"]
+    v = _parse_literal(t, bytes)
+    if v is None or t[:1] != "b" or t[1:4] in ("'''", '"""'):
+        return err("unmodelled")
+    return ok(list(v))
+
+
+def classify_lit(a, o):
+    t = a["t"]
+    kind = "ok" if "ok" in o else "rejected"
+    feats = [k for k, pat in (("x", "\\x"), ("u", "\\u"), ("U", "\\U"), ("octal", "\\0"), ("N", "\\N")) if pat in t]
+    return kind + " " + ("+".join(feats) or ("esc" if "\\" in t else "plain"))
+
+
 def gen_pyeq(rng, tier):
     w = []
     vals = [x for grp in EQ_VARIANTS for x in grp] + [J(None), J(float("nan")), J(Decimal("NaN")), J(float("inf")), J(Decimal("Infinity")),
@@ -1029,6 +1166,14 @@ CORRS = [
          describe="PycodeSerializer.render text + outcome of exec'ing it vs model (text exact; outcome unless the model declines)"),
     Corr("c18.dq", gen_dq, impl_dq, compare=compare_dq, nontrivial=lambda a, o: "\\" in a["s"],
          describe='CPython decoding of the body of a "…" literal vs decodeDq (model may decline)'),
+    Corr("c18.strrepr", gen_strrepr, impl_strrepr, classify=classify_strrepr, nontrivial=lambda a, o: len(a["s"]) > 0,
+         describe="repr(s) and its evaluation vs pyReprStr (interpreter's printability table) and decodeStrLit"),
+    Corr("c18.bytesrepr", gen_bytesrepr, impl_bytesrepr, classify=classify_bytesrepr, nontrivial=lambda a, o: len(a["bs"]) > 0,
+         describe="repr(bytes) and its evaluation vs pyReprBytes and decodeBytesLit"),
+    Corr("c18.strlit", gen_strlit, impl_strlit, compare=compare_dq, classify=classify_lit, nontrivial=lambda a, o: "\\" in a["t"],
+         describe="CPython's reading of a whole str literal (either quote, all escapes) vs decodeStrLit (model may decline)"),
+    Corr("c18.byteslit", gen_byteslit, impl_byteslit, compare=compare_dq, classify=classify_lit, nontrivial=lambda a, o: "\\" in a["t"],
+         describe="CPython's reading of a whole bytes literal vs decodeBytesLit (model may decline)"),
     Corr("c18.pyeq", gen_pyeq, impl_pyeq, describe="Python == on scalar/collection values vs pyEq"),
     Corr("c18.json", gen_json, impl_json, nontrivial=lambda a, o: len(a["s"]) > 0,
          describe="json.dumps(s, ensure_ascii=False) vs jsonDumps (every code point below U+0250, then random)"),
